@@ -14,6 +14,7 @@ import (
 
 	"github.com/failsafe-go/failsafe-go"
 	"github.com/failsafe-go/failsafe-go/bulkhead"
+	"github.com/failsafe-go/failsafe-go/circuitbreaker"
 	"github.com/failsafe-go/failsafe-go/ratelimiter"
 	"github.com/failsafe-go/failsafe-go/retrypolicy"
 
@@ -244,5 +245,99 @@ func TestEventsWhenWaitsAreCancelled(t *testing.T) {
 		b, _ := json.Marshal(sc)
 		st.Case(string(b), true, "wait="+sc.Wait)
 		st.Sample(string(b), func() any { return sc })
+	})
+}
+
+// TestBreakerEventPathConcurrent: goroutines hammer one breaker (executions, Record*, TryAcquirePermit, manual transitions)
+// on the real clock with microsecond delays. The state-change listeners are invoked under the breaker's lock, so the
+// recorded calls are totally ordered: on every schedule they must form a connected path from the closed state, and every
+// generic call must be paired with the matching specific one.
+func TestBreakerEventPathConcurrent(t *testing.T) {
+	const test = "TestBreakerEventPathConcurrent"
+	st := harness.NewStats(test)
+	defer st.Flush()
+	rapid.Check(t, func(t *rapid.T) {
+		type scen struct {
+			FT, FCap, ST, SCap int
+			DelayUs            int
+			Goroutines, Ops    int
+			Seed               uint64
+		}
+		sc := scen{FCap: rapid.IntRange(1, 4).Draw(t, "fcap"), DelayUs: rapid.SampledFrom([]int{0, 5, 50}).Draw(t, "delayUs"),
+			Goroutines: rapid.IntRange(2, 8).Draw(t, "goroutines"), Ops: rapid.IntRange(20, 200).Draw(t, "ops"), Seed: rapid.Uint64().Draw(t, "opSeed")}
+		sc.FT = rapid.IntRange(1, sc.FCap).Draw(t, "ft")
+		if rapid.Bool().Draw(t, "succ") {
+			sc.SCap = rapid.IntRange(1, 4).Draw(t, "scap")
+			sc.ST = rapid.IntRange(1, sc.SCap).Draw(t, "st")
+		}
+		type ev struct{ kind, from, to string }
+		var evs []ev // appended under the breaker's lock by the listeners themselves
+		rec := func(kind string) func(circuitbreaker.StateChangedEvent) {
+			return func(e circuitbreaker.StateChangedEvent) {
+				evs = append(evs, ev{kind, e.OldState.String(), e.NewState.String()})
+			}
+		}
+		b := circuitbreaker.Builder[int]().WithFailureThresholdRatio(uint(sc.FT), uint(sc.FCap)).WithDelay(time.Duration(sc.DelayUs) * time.Microsecond)
+		if sc.ST != 0 {
+			b.WithSuccessThresholdRatio(uint(sc.ST), uint(sc.SCap))
+		}
+		cb := b.OnStateChanged(rec("generic")).OnOpen(rec("open")).OnHalfOpen(rec("half-open")).OnClose(rec("closed")).Build()
+		var wg sync.WaitGroup
+		for g := 0; g < sc.Goroutines; g++ {
+			wg.Add(1)
+			go func(g int) {
+				defer wg.Done()
+				x := sc.Seed + uint64(g)*0x9E3779B97F4A7C15
+				for i := 0; i < sc.Ops; i++ {
+					x = x*6364136223846793005 + 1442695040888963407
+					switch (x >> 33) % 12 {
+					case 0, 1:
+						cb.RecordSuccess()
+					case 2, 3:
+						cb.RecordFailure()
+					case 4, 5:
+						failsafe.Get(func() (int, error) { return 1, nil }, cb)
+					case 6, 7:
+						failsafe.Get(func() (int, error) { return 0, compose.EA }, cb)
+					case 8:
+						cb.TryAcquirePermit()
+					case 9:
+						cb.Open()
+					case 10:
+						cb.HalfOpen()
+					default:
+						cb.Close()
+					}
+				}
+			}(g)
+		}
+		wg.Wait()
+		cb.Open() // take the lock once more so that everything the listeners appended is visible here
+		cb.Close()
+		prev := "closed"
+		generic := 0
+		if len(evs)%2 != 0 {
+			harness.Violation(t, cfg.Prop, test, "breaker-events-unpaired", sc, "%+v: %d listener calls: generic and specific calls do not pair up", sc, len(evs))
+		}
+		for i := 0; i+1 < len(evs); i += 2 {
+			// the two calls for one transition are made back to back under the lock, in either order
+			g, sp := evs[i], evs[i+1]
+			if g.kind != "generic" {
+				g, sp = sp, g
+			}
+			if g.kind != "generic" || sp.kind == "generic" || sp.kind != g.to || sp.from != g.from || sp.to != g.to {
+				harness.Violation(t, cfg.Prop, test, "breaker-events-unpaired", sc, "%+v: calls %d and %d are (%s %s->%s) and (%s %s->%s): not a generic call with its matching specific call", sc, i, i+1, evs[i].kind, evs[i].from, evs[i].to, evs[i+1].kind, evs[i+1].from, evs[i+1].to)
+			}
+			generic++
+			if g.from != prev || g.from == g.to {
+				harness.Violation(t, cfg.Prop, test, "breaker-events-disconnected", sc, "%+v: transition %d is %s->%s but the previous one left the breaker %s", sc, generic, g.from, g.to, prev)
+			}
+			prev = g.to
+		}
+		key := fmt.Sprintf("%+v", sc)
+		st.Case(key, generic >= 3, fmt.Sprintf("transitions>=3=%v", generic >= 3))
+		if generic >= 3 {
+			st.Sample(key, func() any { return map[string]any{"scenario": sc, "transitions": generic} })
+		}
 	})
 }
